@@ -91,6 +91,28 @@ def handle (op : String) (j : Json) : Except String Json := do
       | .written b => Json.mkObj [("w", bhash b)]
       | .read ds => Json.mkObj [("r", Json.arr (ds.map sj).toArray)])
     pure (reply (Json.arr mjs.toArray) (some (Json.arr sjs.toArray)))
+  | "tree" =>
+    -- several tables alive at once: table 0 is the file, every selection appends a table; writes and reads name a table
+    let steps ← getArr j "steps"
+    let prog ← steps.mapM (fun st => do
+      let a ← st.getArr?
+      let kind ← (a.getD 0 Json.null).getStr?
+      let i ← (a.getD 1 Json.null).getNat?
+      match kind with
+      | "sel" => do
+        let idx ← asNatList (a.getD 2 Json.null)
+        pure (TStep.sel i idx)
+      | "write" => pure (TStep.write i)
+      | _ => pure (TStep.fields i))
+    let outs := runTree names [Ext.ofChunk (addNewline body)] prog
+    let sp := specTree names [recs] prog
+    let mjs := outs.map (fun o => match o with
+      | .written b => Json.mkObj [("w", bhash b)]
+      | .read ds => Json.mkObj [("r", Json.arr (ds.map mj).toArray)])
+    let sjs := sp.map (fun o => match o with
+      | .written b => Json.mkObj [("w", bhash b)]
+      | .read ds => Json.mkObj [("r", Json.arr (ds.map sj).toArray)])
+    pure (reply (Json.arr mjs.toArray) (some (Json.arr sjs.toArray)))
   | "count" =>
     -- `count_entries`: NumpyFileReader.read_chunks(min_chunk_size=500000), sum of chunk.count_entries()
     pure (reply (Json.mkObj [("n", nat (countEntries oc on names 500000 body))]) (some (Json.mkObj [("n", nat recs.length)])))
